@@ -417,11 +417,21 @@ func (e *Engine) modelSort(st *State, fr *Frame, x Val, pos token.Pos, ins ssa.I
 	st.assume(fmt.Sprintf("(forall ((i Int)) (! (=> (not %s) (= (select %s i) (select %s i))) :pattern ((select %s i))))", in("i"), row, oldrow, row))
 	// sorted
 	st.assume(fmt.Sprintf("(forall ((i Int) (j Int)) (! (=> (and %s %s (<= i j)) (<= (select %s i) (select %s j))) :pattern ((select %s i) (select %s j))))", in("i"), in("j"), row, row, row, row))
-	// permutation, as far as first-order reasoning needs it: a bijection p on the window
+	if sortOf(slt.Elem()) == "Int" {
+		// a permutation keeps the element set (valid fact; saves an induction)
+		reg.declareFun("elems!Int", []string{"(Array Int Int)", "Int", "Int"}, "(Array Int Bool)")
+		e.assumptions["sort.Sort: elems(sorted) = elems(original) (trusted lemma about the ghost element set)"] = true
+		st.assume(fmt.Sprintf("(= (elems!Int %s %s %s) (elems!Int %s %s %s))", row, off, ln, oldrow, off, ln))
+	}
+	// permutation: a bijection p on the relative indices 0..len-1 (relative indices keep the shape "off + i" that
+	// quantified contracts use, so E-matching connects them)
 	p := fresh("perm")
 	st.decls = append(st.decls, fmt.Sprintf("(declare-fun %s (Int) Int)", p), fmt.Sprintf("(declare-fun %s_inv (Int) Int)", p))
-	st.assume(fmt.Sprintf("(forall ((i Int)) (! (=> %s (and %s (= (select %s i) (select %s (%s i))) (= (%s_inv (%s i)) i))) :pattern ((%s i)) :pattern ((select %s i))))", in("i"), in("("+p+" i)"), row, oldrow, p, p, p, p, row))
-	st.assume(fmt.Sprintf("(forall ((i Int)) (! (=> %s (and %s (= (select %s (%s_inv i)) (select %s i)) (= (%s (%s_inv i)) i))) :pattern ((%s_inv i)) :pattern ((select %s i))))", in("i"), in("("+p+"_inv i)"), row, p, oldrow, p, p, p, oldrow))
+	rng := func(i string) string { return fmt.Sprintf("(and (<= 0 %s) (< %s %s))", i, i, ln) }
+	st.assume(fmt.Sprintf("(forall ((i Int)) (! (=> %s (and %s (= (select %s (+ %s i)) (select %s (+ %s (%s i)))) (= (%s_inv (%s i)) i))) :pattern ((%s i)) :pattern ((select %s (+ %s i)))))",
+		rng("i"), rng("("+p+" i)"), row, off, oldrow, off, p, p, p, p, row, off))
+	st.assume(fmt.Sprintf("(forall ((i Int)) (! (=> %s (and %s (= (select %s (+ %s (%s_inv i))) (select %s (+ %s i))) (= (%s (%s_inv i)) i))) :pattern ((%s_inv i)) :pattern ((select %s (+ %s i)))))",
+		rng("i"), rng("("+p+"_inv i)"), row, off, p, oldrow, off, p, p, p, oldrow, off))
 	st.setHeap(hn, hs, store(h, slRef(sv.S), row))
 }
 
